@@ -249,6 +249,10 @@ func runC04(c *report.Ctx) {
 	// ---- (3) use after wipe -----------------------------------------------------------------------------------------
 	ruleUseAfterWipe(c)
 	_ = sort.Strings
+
+	// ---- restore scan and record codec ----------------------------------------------------------------------
+	ruleBranchKeyAgreement(c)
+	ruleByteOrder(c, []string{pkgKeystore, pkgHD, pkgSnacl}, 4)
 }
 
 func kindOnly(os []string) string {
